@@ -47,8 +47,10 @@ class Exporter(object):
         self.atoms = {}
 
     def label(self, text):
+        """even labels for statements that do not raise, odd ones for statements whose evaluation may raise
+        (Lang.raises): here the statements that read a missing attribute of the argument object `o`"""
         if text not in self.atoms:
-            self.atoms[text] = len(self.atoms) + 1
+            self.atoms[text] = 2 * (len(self.atoms) + 1) + (1 if 'o.missing' in text else 0)
         return self.atoms[text]
 
     def body_of(self, fn):
@@ -112,7 +114,7 @@ class Exporter(object):
         if isinstance(s, ast.Try):
             hs = 'HNil'
             for h in reversed(s.handlers):
-                hs = 'HCons (%s) (%s)' % (self.block(h.body), hs)
+                hs = 'HCons %s (%s) (%s)' % ('true' if h.type is None else 'false', self.block(h.body), hs)
             return 'STry (%s) (%s) (%s) (%s)' % (self.block(s.body), hs, self.block(s.orelse), self.block(s.finalbody))
         if isinstance(s, ast.With):
             return 'SWith %d (%s)' % (self.label('with ' + ', '.join(unparse(i) for i in s.items)), self.block(s.body))
